@@ -1103,3 +1103,81 @@ Proof.
     unfold stmt_exec. rewrite all_ops_pops, map_tnorm_imm, map_opt_data by assumption.
     rewrite (add_named_in st1 mn items n (fun x => ItData x t els) Hin1). reflexivity.
 Qed.
+
+(* ---------------------------------------------------------------- proto items and function headers *)
+
+Definition sig_els (res : list mtype) (args : list var) : list sigel := map SigRes res ++ map SigArg args.
+
+Lemma tk_proto_tail_form va res args rest :
+  tk_proto_tail va res args ++ rest
+  = match sig_els res args with
+    | [] => (if va then [dots_tok; TNL] else [TNL]) ++ rest
+    | _ => sep_toks tk_sigel (sig_els res args) ++ (if va then [TComma; dots_tok; TNL] else [TNL]) ++ rest
+    end.
+Proof.
+  unfold tk_proto_tail, sig_els, dots_tok. destruct res as [|t res], args as [|v args], va; cbn [map app];
+    repeat rewrite <- app_assoc; cbn [app]; try reflexivity.
+Qed.
+
+Definition sig_ok (res : list mtype) (args : list var) : Prop := Forall sigel_ok (sig_els res args).
+
+Lemma parse_ops_proto_tail k st va res args rest fuel :
+  is_sig k = true -> sig_ok res args -> (length (sig_els res args) + 2 < fuel)%nat ->
+  parse_ops fuel k st [] (tk_proto_tail va res args ++ rest) = Some (map psig (sig_els res args), va, st, rest).
+Proof.
+  intros Hk Hok Hf. rewrite tk_proto_tail_form. unfold sig_ok in Hok. destruct (sig_els res args) as [|e els] eqn:E.
+  - rewrite parse_ops_sig_nil by (try assumption; cbn [length] in Hf; lia). reflexivity.
+  - rewrite parse_ops_sig by (try assumption; try discriminate; cbn [length] in Hf |- *; lia). reflexivity.
+Qed.
+
+Lemma proto_follow va res args rest : follow_not_col (tk_proto_tail va res args ++ rest).
+Proof.
+  rewrite tk_proto_tail_form. destruct (sig_els res args) as [|e els].
+  - destruct va; exact I.
+  - destruct (tk_sigel_head e) as (t & r & Et & _). destruct els; [rewrite sep_toks_one | rewrite sep_toks_cons2]; rewrite Et;
+      destruct e as [ty|v]; cbn [tk_sigel] in Et; try (inversion Et; subst; exact I);
+      unfold tk_arg in Et; destruct (all_blk_type_p (v_type v)); inversion Et; subst; exact I.
+Qed.
+
+Lemma parse_labels_named n kw r F : follow_not_col r -> (3 <= F)%nat ->
+  parse_labels F (TName n :: TCol :: TName kw :: r) [] = Some ([n], kw, r).
+Proof.
+  intros Hr HF. destruct F as [|[|[|F]]]; try lia. cbn [parse_labels rev app].
+  destruct r as [|[ | | | | | | | | | | | | ] r']; cbn in Hr; try contradiction; reflexivity.
+Qed.
+
+Lemma item_proto st mn items n va res args s rest : in_mod st mn items -> lrel st s -> sig_ok res args ->
+  exists st', item_done st st' mn items (ItProto n va res (map norm_var args)) s
+    /\ forall F, (length (sig_els res args) + 3 < F)%nat ->
+         scan_stmt F st (tk_item (ItProto n va res args) ++ rest) = SNext st' rest.
+Proof.
+  intros [Hm Hf] Hrel Hok. exists (add_to st mn items (ItProto n va res (map norm_var args))). split.
+  - split; [reflexivity|]. split; [split; reflexivity | now apply lrel_add_to].
+  - intros F HF. cbn [tk_item]. rewrite <- app_assoc. cbn [app]. rewrite scan_stmt_name. unfold scan_body.
+    rewrite parse_labels_named by (try apply proto_follow; lia).
+    assert (Hkd : stmt_kind (str "proto") = Some KProto) by reflexivity. rewrite Hkd.
+    cbn [label_count_bad length Nat.eqb negb is_var andb].
+    rewrite parse_ops_proto_tail by (try assumption; try reflexivity; lia).
+    unfold stmt_exec. rewrite Hm. unfold sig_els. rewrite split_sig_sig.
+    unfold add_item, as_rstate, set_core, add_to. cbn [rs_mod rs_func rs_mods]. rewrite Hm, Hf. reflexivity.
+Qed.
+
+(* the header line of a function *)
+Lemma stmt_func_header st mn items f s rest : in_mod st mn items -> lrel st s -> sig_ok (f_res f) (f_args f) ->
+  exists st', ss_mods st' = ss_mods st /\ ss_mod st' = Some (mn, items)
+    /\ ss_func st' = Some (mkFstate (f_name f) (f_vararg f) (f_res f) (map norm_var (f_args f)) [] [] [])
+    /\ lrel st' s
+    /\ forall F, (length (sig_els (f_res f) (f_args f)) + 3 < F)%nat ->
+         scan_stmt F st ([TName (f_name f); TCol; TName (str "func")] ++ tk_proto_tail (f_vararg f) (f_res f) (f_args f) ++ rest)
+         = SNext st' rest.
+Proof.
+  intros [Hm Hf] Hrel Hok.
+  exists (set_func st (mkFstate (f_name f) (f_vararg f) (f_res f) (map norm_var (f_args f)) [] [] [])).
+  split; [reflexivity|]. split; [exact Hm|]. split; [reflexivity|]. split; [now apply lrel_set_func|].
+  intros F HF. cbn [app]. rewrite scan_stmt_name. unfold scan_body.
+  rewrite parse_labels_named by (try apply proto_follow; lia).
+  assert (Hkd : stmt_kind (str "func") = Some KFunc) by reflexivity. rewrite Hkd.
+  cbn [label_count_bad length Nat.eqb negb is_var andb].
+  rewrite parse_ops_proto_tail by (try assumption; try reflexivity; lia).
+  unfold stmt_exec. rewrite Hm, Hf. unfold sig_els. rewrite split_sig_sig. unfold set_func. rewrite Hm. reflexivity.
+Qed.
